@@ -1,51 +1,11 @@
 #!/usr/bin/env python3
-"""Generates /verif/MANIFEST.json from the table below (keeps it valid at all times)."""
-import json, subprocess
+"""Generates /verif/MANIFEST.json from tools/checks.json (claimed checks) and tools/na.json (reasons for the rest)."""
+import json, os
 props=[json.loads(l) for l in open('/verif/properties.jsonl')]
 ids=[p['id'] for p in props]
-C={}  # id -> dict(level, text, note, technique, design_ref)
-C['C14']=dict(level='model_checking',
-  text='Exhaustive preemption-bounded exploration (bound 2 quick / 3 thorough, happens-before state caching) of all arm/stop/re-arm sequences (length <=3/4, with and without virtual-time gaps), 2-3 concurrent connections and every prefix of the valid handshake paths, executed on the real ShipConnection code under a controlled scheduler with virtual time; a monitor fed by entry/exit trace hooks checks every delivered timeout against the latest armed, un-stopped timer.',
-  note='simrt models Go mutex/channel/select/timer semantics; scheduling points at synchronisation operations only; virtual time (timely mode); vinstr rewrites a scratch copy of /repo mechanically.',
-  technique='stateless schedule exploration (controlled scheduler, iterative preemption bounding) of the implementation',
-  design_ref='4/C14')
-C['C12']=dict(level='model_checking',
-  text='Exhaustive preemption-bounded exploration (bound 2 quick / 3 thorough) of 1-3 concurrent writers (1-2 writes each) against every closing event (local close with/without reason, peer close frame, abrupt EOF, failing transport write, link cut), with and without a stalled transport write (full outgoing queue), on the real ws.WebsocketConnection and its two pumps over a fake socket; oracle: every write returns, no panic, error once closed, and the frames the peer received form a gap-free, duplicate-free prefix consistent with the call/return order of the accepted writes.',
-  note='fakews models the gorilla/websocket behaviour ship-go relies on (control frames inside ReadMessage, permanent read errors, ErrCloseSent, concurrent-writer panic); simrt scheduling points at sync/channel/socket operations; happens-before state caching.',
-  technique='stateless schedule exploration (controlled scheduler, iterative preemption bounding) of the implementation',
-  design_ref='4/C12')
-C['C13']=dict(level='fault_enumeration',
-  text='A transport fault is injected at the k-th read and the k-th write for every k of a session with traffic in both directions (data writes and the 50 s ping included), peer close frames with six codes, abrupt EOF, local close with/without reason and an idle session, each explored under all schedules within the preemption bound (1 quick / 2 thorough) on the real ws.WebsocketConnection up to a 130 s virtual horizon; oracle: error reported (non-nil) and closed-query (true, non-nil) for transport loss, no error report for a deliberate local close, nothing delivered after the end, both pumps terminated, socket Close() called.',
-  note='fault model: a failing read/write cuts the link in both directions; read/write deadlines on virtual time; fakews as for C12.',
-  technique='fault enumeration x stateless schedule exploration of the implementation under a controlled scheduler',
-  design_ref='4/C13')
-C['C07']=dict(level='exploration',
-  text='Bounded-exhaustive enumeration of all JSON documents with a top-level object up to 6 (quick) / 7 (thorough) nodes over a structural alphabet and up to 4 / 5 nodes over a 21-scalar alphabet that contains one representative per textual shortcut in the code (bracket sequences in strings and member names, escapes, empty containers, numbers beyond float64); each document is pushed through the real JsonIntoEEBUSJson / JsonFromEEBUSJson and compared with a reference transformer (shape), with itself after the round trip (member order, number literals, string contents) and after the data-envelope splice as the receiver parses it. Failures are classified by repair-and-recheck into structural cause classes.',
-  note='un-instrumented: built directly against /repo; small-scope hypothesis over the stated alphabet; duplicate member names and invalid UTF-8 excluded.',
-  technique='bounded-exhaustive input enumeration against a reference model (no sampling)',
-  design_ref='4/C07', engine='direct')
-G="Explicit-state breadth-first search to fixpoint whose transition function is the real code: a state is the shortest event history reaching it, replayed on a fresh ShipConnection under the controlled scheduler; states are deduplicated by a reflection snapshot of every ShipConnection field plus armed virtual timers, live goroutines and the monitor's ghost variables"
-GNOTE='handler-atomic transitions (one stimulus run to quiescence); message alphabet with one representative per handler branch, each message at most twice per history; timers fire in deadline order; fake transport and info provider; concurrency between stimuli is covered by C03/C14.'
-C['C04']=dict(level='model_checking',
-  text='%s. Events: every message of the alphabet (well-formed, ill-formed, out of phase), timer expiry, transport-down flag and error report, user approve/cancel/close, application write, and a write failure injected at every single transport write of every transition. Monitors on every transition: each reported state change is an edge of the SHIP 13.4 state graph written out as a table in the harness; after the first terminal outcome no progress state, no send other than the closing exchange, no setup, handshake timer not running, transport closed once no close delay is pending. 4 configurations quick (core alphabet), 5 thorough (full alphabet).' % G,
-  note=GNOTE, technique='explicit-state model checking of the implementation (BFS by replay over real handlers) with single-fault enumeration', design_ref='4/C04')
-C['C09']=dict(level='model_checking',
-  text='%s. Both roles x stored SHIP ID {none, "A"}; alphabet: the valid prefix plus access-methods request and replies with id A, B, empty, absent, number, null, in every order and state. Monitors: with a stored id the remote device is set up only if the last presented id equals it; an unknown id is reported exactly once, with the presented value, strictly before setup; never when the id was known.' % G,
-  note=GNOTE+' The hub half (stored id reaches every new connection) is covered by the two-hub harness.', technique='explicit-state model checking of the implementation (BFS by replay over real handlers)', design_ref='4/C09')
-C['C01']=dict(level='model_checking',
-  text='%s. Server role with trust in {none, paired, auto-accept} x waiting allowed or not, plus client role; the harness is the adversarial peer, the transport and the user (approve/cancel/close). Monitor: hello-ok only while trust is present, setup/complete/payload only after a legitimate hello-ok, payload only after setup, complete only after setup.' % G,
-  note=GNOTE+' Ship level: the trust answers come from a fake info provider; the hub bookkeeping behind them is exercised by the two-hub harnesses.', technique='explicit-state model checking of the implementation (BFS by replay over real handlers)', design_ref='4/C01')
-C['C06']=dict(level='model_checking',
-  text='%s. SPINE data frames are offered in every reachable state before and after completion (at most two, both orders) together with the rest of the alphabet. Monitor: the payloads handed to the reader equal the arrived datagrams in arrival order, none before SetupRemoteDevice, none lost or duplicated while the connection is open.' % G,
-  note=GNOTE+' Covers the buffering/flush half at the ship level; ordering through the write queue and pumps of two connected endpoints is covered by the pair harness.', technique='explicit-state model checking of the implementation (BFS by replay over real handlers)', design_ref='4/C06')
-C['C08']=dict(level='model_checking',
-  text='%s. Every alphabet message is delivered in every reachable state (both roles, trusted and pending); in addition 4490 systematic malformed inputs (every single structured mutation of each valid SHIP message: node deleted / replaced by 14 values incl. "[ ]", header byte variants, truncations, stray zero bytes, whitespace at token boundaries; all byte strings of length <= 3 over a 14-symbol alphabet) are delivered in one representative of every distinct (handshake state, transport state). Oracle: no panic in any goroutine, the receive loop returns (only a bounded close delay may be pending), post-state legal.' % G,
-  note=GNOTE+' Ship level only so far (websocket frame level and mDNS inputs are separate harnesses).', technique='explicit-state model checking of the implementation (BFS by replay) plus exhaustive enumeration of a finite mutation set in every distinct state', design_ref='4/C08')
-C['C03']=dict(level='model_checking',
-  text='Explicit-state breadth-first search to fixpoint over two real ShipConnections (client and server role) joined by FIFO queues in which a transport close travels behind the frames written before it. 34 configurations quick / 128 thorough: server trust {paired, auto-accept, user approves at any moment, user cancels while pending, never answers} x waiting allowed on either side x SHIP ID known on {neither, both, client, server} x timer mode {timely: timers only when no delivery is possible; arbitrary: any armed timer at any point, at most 3 frames per direction delayed}. Safety on every transition (setup at most once per endpoint, learned SHIP ID is the peer's, no completion without/after-cancel of trust); liveness on the kept state graph: Tarjan SCC, every bottom component must be resolved (both complete on an open transport, or both ended), success is mandatory in timely mode when trust was given beforehand or while pending; only the prolongation cycle of a user who has not answered is excused.',
-  note=GNOTE+' Intra-endpoint interleavings of concurrent stimuli are explored by the C14 schedule exploration and (hub level) the two-hub harnesses.', technique='explicit-state model checking of the implementation (two endpoints, BFS by replay) + SCC analysis of the state graph', design_ref='4/C03')
-na={}
-checks=[]
+C=json.load(open('/verif/tools/checks.json'))
+NA=json.load(open('/verif/tools/na.json')) if os.path.exists('/verif/tools/na.json') else {}
+checks=[]; na=[]
 for i in ids:
     if i in C:
         c=C[i]
@@ -54,13 +14,13 @@ for i in ids:
             level_claimed=dict(category=c['level'], text=c['text'], design_ref='DESIGN.md section '+c['design_ref']),
             level_note=c['note'], technique=c['technique']))
     else:
-        na[i]='check not built yet (work in progress)'
+        na.append(dict(property_id=i, reason=NA.get(i,'check not built yet (work in progress)')))
 m=dict(version=1, setup_cmd='./bin/setup.sh',
   hooks=dict(guard='verif', enable='checks instrument a scratch copy of /repo (tools/vinstr rewrites sync/time/go/chan/select and library boundaries to the simrt runtime), add harness-only files tagged //go:build verif to that copy and build it with -tags verif; /repo itself carries no hooks',
      baseline_off_cmd='cd /repo && GOFLAGS=-mod=mod GOPROXY=off GOSUMDB=off GOTOOLCHAIN=local go test -vet=off -count=1 -timeout 25m ./...', source_commits=[], add_only=True),
-  engines=[dict(name='simrt+vinstr', path='/verif/rt/simrt, /verif/tools/vinstr', serves_properties=sorted(C), kind_free_text='hand-written model checker for Go: source instrumenter + cooperative controlled scheduler with virtual time, fault choice points, stateless DFS with iterative deviation bounding and happens-before state caching; explicit-state BFS by replay over real handlers')],
-  checks=checks,
-  not_applicable=[dict(property_id=k, reason=v) for k,v in na.items()],
+  engines=[dict(name='simrt+vinstr', path='/verif/rt/simrt, /verif/tools/vinstr', serves_properties=sorted(k for k in C if C[k].get('engine','simrt+vinstr')=='simrt+vinstr'), kind_free_text='hand-written model checker for Go: source instrumenter + cooperative controlled scheduler with virtual time, fault choice points, stateless DFS with iterative deviation bounding and happens-before state caching; explicit-state BFS by replay over real handlers'),
+           dict(name='direct', path='/verif/direct', serves_properties=sorted(k for k in C if C[k].get('engine')=='direct'), kind_free_text='bounded-exhaustive enumerators built directly against /repo (no instrumentation)')],
+  checks=checks, not_applicable=na,
   notes='see DESIGN.md; known findings and fixed defects in known_findings.json')
 json.dump(m, open('/verif/MANIFEST.json','w'), indent=1)
 print('checks:',len(checks),'na:',len(na))
